@@ -144,6 +144,13 @@ func scheduleProjects(c *core.Ctx, n, years int) []*gen.Project {
 		if i%4 == 2 {
 			idates = append(idates, e-1)
 		}
+		if i%6 == 5 {
+			// a long irrigation history of the field before the simulation starts (one event a day for more than 500 days):
+			// the events inside the period come after line 500 of the field
+			for d := b - 1; d > b-1-505-r.Intn(40); d-- {
+				idates = append(idates, d)
+			}
+		}
 		sort.Ints(idates)
 		seen := map[int]bool{}
 		for _, d := range idates {
